@@ -46,6 +46,7 @@ package atree
 //@   modifies basicDigester.circleHash64, basicDigester.blake3Hash, basicDigester.msg, basicDigester.scratch, alloc
 
 //@ func (m *OrderedMap) setCallbackWithChild(comparator, hip, key, child, maxInlineSize)  serves C10 C11
+//@   before[C10] mutableValueNotifier.setParentUpdater: maxInlineSize == ite(old(maxInlineSize) < wszV(child), 0, old(maxInlineSize) - wszV(child))
 //@   modifies Array.parentUpdater, OrderedMap.parentUpdater, alloc
 
 //@ pred mapExtra(m *OrderedMap) = ite(is(m.root, *MapDataSlab), as(m.root, *MapDataSlab).extraData, as(m.root, *MapMetaDataSlab).extraData)
@@ -53,7 +54,8 @@ package atree
 //@ # the root is within the size limit (a leaf that is a collision-group slab has no limit)
 //@ pred mapRootFits(m *OrderedMap) = isMapSlab(m.root) &&
 //@      (is(m.root, *MapDataSlab) ==> as(m.root, *MapDataSlab).anySize || as(m.root, *MapDataSlab).header.size <= maxThreshold) &&
-//@      (is(m.root, *MapMetaDataSlab) ==> as(m.root, *MapMetaDataSlab).header.size <= maxThreshold)
+//@      (is(m.root, *MapMetaDataSlab) ==> as(m.root, *MapMetaDataSlab).header.size <= maxThreshold &&
+//@           (m.root == old(m.root) ==> len(as(m.root, *MapMetaDataSlab).childrenHeaders) >= 2))
 
 //@ # the root slab of m is ready for a keyed operation (assumed: tree invariant at the root)
 //@ pred mapRootReady(m *OrderedMap) = m.Storage != nil && isMapSlab(m.root) &&
@@ -62,6 +64,9 @@ package atree
 //@           as(m.root, *MapMetaDataSlab).header.size <= maxThreshold && as(m.root, *MapMetaDataSlab).extraData != nil)
 
 //@ func (m *OrderedMap) set(comparator, hip, key, value) (existing, err)  serves C02 C05 C10
+//@   # the root is asked about the caller's key (and value) with its first-level digest
+//@   before[C02] MapDataSlab.Set: arg_recv == m.root && arg_storage == m.Storage && arg_b == m.digesterBuilder && dgKey(arg_digester) == key && arg_level == 0 && arg_hkey == dig(key, 0) && arg_comparator == comparator && arg_hip == hip && arg_key == key && arg_value == value
+//@   before[C02] MapMetaDataSlab.Set: arg_recv == m.root && arg_storage == m.Storage && arg_b == m.digesterBuilder && dgKey(arg_digester) == key && arg_level == 0 && arg_hkey == dig(key, 0) && arg_comparator == comparator && arg_hip == hip && arg_key == key && arg_value == value
 //@   requires m.Storage != nil && m.root != nil && m.digesterBuilder != nil && hip != nil && comparator != nil && key != nil && value != nil
 //@   assume mapRootReady(m) because "tree invariant at the root (composition)"
 //@   ensures[C10] err == nil ==> notified > old(notified)
@@ -76,6 +81,9 @@ package atree
 //@   modifies heap, ghost.sto, ghost.issued, ghost.stored, ghost.touched, ghost.notified, ghost.updFail, alloc
 
 //@ func (m *OrderedMap) remove(comparator, hip, key) (k, v, err)  serves C02 C05 C10
+//@   # the root is asked about the caller's key (and value) with its first-level digest
+//@   before[C02] MapDataSlab.Remove: arg_recv == m.root && arg_storage == m.Storage && dgKey(arg_digester) == key && arg_level == 0 && arg_hkey == dig(key, 0) && arg_comparator == comparator && arg_key == key
+//@   before[C02] MapMetaDataSlab.Remove: arg_recv == m.root && arg_storage == m.Storage && dgKey(arg_digester) == key && arg_level == 0 && arg_hkey == dig(key, 0) && arg_comparator == comparator && arg_key == key
 //@   requires m.Storage != nil && m.root != nil && m.digesterBuilder != nil && hip != nil && comparator != nil && key != nil
 //@   assume mapRootReady(m) because "tree invariant at the root (composition)"
 //@   ensures[C10] err == nil ==> notified > old(notified)
@@ -97,6 +105,8 @@ package atree
 //@   # otherwise the parent would keep the inlined copy while a standalone slab is stored as well)
 //@   before[C09 C10] OrderedMap.notifyParentIfNeeded: old(is(m.root, *MapDataSlab)) ==> as(m.root, *MapDataSlab).inlined == old(as(m.root, *MapDataSlab).inlined) &&
 //@        as(m.root, *MapDataSlab).header.slabID == old(as(m.root, *MapDataSlab).header.slabID)
+//@   # a standalone root is written back (C03): the emptied root is in the write set when the parent is notified
+//@   before[C03 C08] OrderedMap.notifyParentIfNeeded: !as(m.root, *MapDataSlab).inlined ==> has(stored, m.root) && sto[as(m.root, *MapDataSlab).header.slabID] == m.root
 //@   modifies heap, ghost.sto, ghost.issued, ghost.stored, ghost.touched, ghost.notified, ghost.updFail, alloc
 
 //@ func (m *MapDataSlab) Inlinable(maxInlineSize) (r)  serves C10
@@ -133,7 +143,6 @@ package atree
 //@ # mcur(m, key): the value storable currently stored under key (what OrderedMap.get returns), as a function of map and key
 //@ ghost mcur : fn(m ref, key Value) ref
 //@ ghost mcurErr : fn(m ref, key Value) int
-//@ ghost vidEq : fn(vid ValueID, sid SlabID) bool
 //@ ghost unwrapS : fn(s Storable) ref
 
 //@ func (m *OrderedMap) Get(comparator, hip, key) (v, err)  serves C02 C10 C18
@@ -142,6 +151,15 @@ package atree
 //@   before[C10] OrderedMap.setCallbackWithChild: maxInlineSize == maxInlineMapElementSize - bs(keyStorable) - 1
 //@   modifies OrderedMap.parentUpdater, Array.parentUpdater, alloc
 
+//@ # the root is asked about the caller's key with its first-level digest (second view: only the hand-off is checked here)
+//@ func (m *OrderedMap) get@args(comparator, hip, key) (k, v, err)  serves C02
+//@   requires m.Storage != nil && m.root != nil && m.digesterBuilder != nil
+//@   before[C02] DigesterBuilder.Digest: arg_recv == m.digesterBuilder && arg_hip == hip && arg_value == key
+//@   before[C02] Digester.Digest: arg_level == 0
+//@   before[C02] MapSlab.Get: arg_recv == m.root && arg_storage == m.Storage && arg_level == 0 && arg_hkey == dig(key, 0) && dgKey(arg_digester) == key &&
+//@        arg_comparator == comparator && arg_key == key
+//@   modifies heap, alloc
+
 //@ func (m *OrderedMap) get(comparator, hip, key) (k, v, err)  serves C02
 //@   trusted "lookup result abstracted as mcur(m, key) for the closure contract below; the lookup path itself is covered by the slab-level contracts"
 //@   ensures err == nil ==> v == mcur(m, key) && mcurErr(m, key) == 0
@@ -149,8 +167,7 @@ package atree
 //@   modifies alloc
 
 //@ func (vid ValueID) equal(sid) (r)  serves C11
-//@   trusted "byte-wise comparison of a value id with a slab id, abstracted as vidEq"
-//@   ensures r == vidEq(vid, sid)
+//@   ensures r == vidIs(vid, sid)
 //@   pure
 
 //@ func unwrapStorable(s) (r)  serves C11
@@ -168,12 +185,15 @@ package atree
 //@   ensures[C10] !old(inlinedC(c)) && !old(inlinableC(c, maxInlineSize)) ==> found && err == nil && mapParentUntouched()
 //@   ensures[C11] (old(inlinedC(c)) || old(inlinableC(c, maxInlineSize))) && mcurErr(m, key) == 1 ==> !found && err == nil && mapParentUntouched()
 //@   ensures[C02 C11] (old(inlinedC(c)) || old(inlinableC(c, maxInlineSize))) && mcurErr(m, key) == 0 && !is(mcur(m, key), WrapperStorable) &&
-//@        is(mcur(m, key), Slab) && !is(mcur(m, key), SlabIDStorable) && !vidEq(vid, old(sid(mcur(m, key)))) ==> !found && err == nil && mapParentUntouched()
+//@        is(mcur(m, key), Slab) && !is(mcur(m, key), SlabIDStorable) && !vidIs(vid, old(sid(mcur(m, key)))) ==> !found && err == nil && mapParentUntouched()
 //@   ensures[C02 C11] (old(inlinedC(c)) || old(inlinableC(c, maxInlineSize))) && mcurErr(m, key) == 0 && !is(mcur(m, key), WrapperStorable) &&
 //@        !is(mcur(m, key), Slab) && !is(mcur(m, key), SlabIDStorable) ==> !found && err == nil && mapParentUntouched()
 //@   ensures[C02 C11] (old(inlinedC(c)) || old(inlinableC(c, maxInlineSize))) && mcurErr(m, key) == 0 && !is(mcur(m, key), WrapperStorable) &&
-//@        is(mcur(m, key), SlabIDStorable) && !vidEq(vid, SlabID(as(mcur(m, key), SlabIDStorable))) ==> !found && err == nil && mapParentUntouched()
+//@        is(mcur(m, key), SlabIDStorable) && !vidIs(vid, SlabID(as(mcur(m, key), SlabIDStorable))) ==> !found && err == nil && mapParentUntouched()
 //@   ensures[C11] !found && err == nil ==> mapParentUntouched()
+//@   # the hand-off on the updating path (C10): the value is looked up under the same key, and the original (possibly wrapped) child is set under it again
+//@   before[C10] OrderedMap.get: arg_recv == m && arg_comparator == comparator && arg_hip == hip && arg_key == key
+//@   before[C10] OrderedMap.set: arg_recv == m && arg_comparator == comparator && arg_hip == hip && arg_key == key && arg_value == child
 //@   modifies heap, ghost.sto, ghost.issued, ghost.stored, ghost.touched, ghost.notified, ghost.updFail, alloc
 
 //@ # ---- bulk pop of a map leaf: identity, inline status and extra data stay; the leaf reports the size of an empty leaf of its kind
@@ -199,4 +219,7 @@ package atree
 //@   requires m.Storage != nil && isMapSlab(m.root) && mapExtra(m) != nil
 //@   ensures[C10] err == nil && old(mapInlinedRoot(m)) ==> notified > old(notified)
 //@   ensures[C02 C03 C08 C11] err == nil && !old(mapInlinedRoot(m)) ==> has(stored, m.root)
+//@   # the root written back / handed to the parent carries the new type in the same extra-data record
+//@   before[C02] OrderedMap.notifyParentIfNeeded: m.root == old(m.root) && mapExtra(m) == old(mapExtra(m)) && mapExtra(m).TypeInfo == typeInfo
+//@   before[C02] storeSlab: arg_slab == m.root && m.root == old(m.root) && mapExtra(m) == old(mapExtra(m)) && mapExtra(m).TypeInfo == typeInfo
 //@   modifies heap, ghost.sto, ghost.issued, ghost.stored, ghost.touched, ghost.notified, ghost.updFail, alloc
